@@ -4,5 +4,9 @@ CHECKS = {
  'C01': {'level': 'exploration', 'technique': LAT,
          'text': 'Every point of the lattice order x dims x rank vectors x dtype pairs x value family is executed on the real TT class and every value-level operation compared with an independent einsum evaluation; exhaustive over structure within the bounds, representative over entry values.',
          'note': 'NumPy dense kernels are the reference; bounds: order <= 3 (4 thorough), mode sizes <= 2 (3), ranks <= 2 (3); entry values from seeded families (gauss, small-int, non-negative).'},
+
+ 'C02': {'level': 'exploration', 'technique': LAT,
+         'text': 'tensordot is executed at every point of (order pair x 4 modes x every num_axes x site-type patterns x all internal rank vectors x outer ranks x dtype pairs x overwrite) and compared with numpy.tensordot on the einsum-contracted operands including the documented mode ordering; rank_tensordot, concatenate, rank_transpose, diag (all site subsets), squeeze (all placements of 1x1 modes), tt2qtt (all ordered factorisations), qtt2tt (all compositions), the split/merge round trip and build_core(_vector) (all zero placements x complex patterns) likewise.',
+         'note': 'bounds: orders <= 3 (4), site types over {1,2}(3), ranks <= 2 (3), mode sizes for QTT in {1,2,3,4,6}; values from seeded gaussian family; the undocumented orientation of the complete-both contraction is taken from the library.'},
 }
 NOT_APPLICABLE = {}
